@@ -976,6 +976,28 @@ fn trigger_scenarios(out: &mut Out) {
         c.out.nontrivial();
         c.out.count("trigger-scenario");
     }
+    // a gap of two messages whose head is filled late: the rest of the same gap must still time
+    // out one timeout after the gap opened (not one timeout after the partial fill)
+    {
+        let mut c = Case::begin(out, cfg, t0);
+        c.out.set_desc("trigger partial-fill-still-times-out".into());
+        c.op(&birth);
+        c.op(&format!("ev n1 ndata seq=3 ts={} id=4 ans=ok", t0 + 3)); // gap 1,2 opens here
+        c.op("adv 60");
+        c.op(&format!("ev n1 ndata seq=1 ts={} id=2 ans=ok", t0 + 1)); // fills the head only
+        let before = c.sess.ncmds;
+        c.op("adv 45"); // 100 ms after the gap opened have now passed
+        let got = c.sess.ncmds - before;
+        if got != 1 {
+            c.out.fail(
+                "C07:trigger-requests-rebirth",
+                "gap-timeout-after-partial-fill",
+                format!("seq 2 missing for more than the reorder timeout (100 ms) after the gap opened, {} NCMD(s) sent", got),
+            );
+        }
+        c.out.nontrivial();
+        c.out.count("trigger-scenario");
+    }
     // no-spurious: a gap that closes just before the timeout
     let mut c = Case::begin(out, cfg, t0);
     c.out.set_desc("trigger gap-closes-before-timeout".into());
